@@ -299,6 +299,31 @@ def run(ctx) -> None:
         ctx.ob("C16.R3-no-hash-when-missing", tn.ast, ok,
                "strong mode: a referenced path that does not exist makes the function return None" if ok else
                "strong mode: the function can continue (and produce a hash) although a referenced input does not exist")
+    # in EVERY mode (also fuzzy, where the content of a produced file is not hashed): the entry that a reference contributes to the hashed
+    # information is stored only on paths that took the 'present' side of an existence test of the reference's location - a component
+    # must not get a (fuzzy) hash, and the memoization database must not be queried, while a file it consumes from a producer is missing
+    loc_vars = match.locals_where(fn, lambda v: isinstance(v, ast.Call) and last_attr(v) == "location")
+    ctx.require(bool(loc_vars), "anchor missing: <local> = <reference>.location(...) in _compute_memoization_info")
+    loc_defs = [n for n in cfg.nodes if n.kind == "stmt" and isinstance(n.ast, ast.Assign) and isinstance(n.ast.value, ast.Call)
+                and last_attr(n.ast.value) == "location" and any(isinstance(t, ast.Name) and t.id in loc_vars for t in n.ast.targets)]
+    present = match.test_nodes(cfg, lambda t: match.polarity(t, lambda e: isinstance(e, ast.Call) and call_name(e) in ("os.path.exists", "os.path.isfile")
+                                                            and e.args and isinstance(e.args[0], ast.Name) and e.args[0].id in loc_vars))
+    file_tables = set(match.locals_where(fn, lambda v: isinstance(v, ast.Dict) and not v.keys)) & {
+        t.value.id for n in ast.walk(fn) if isinstance(n, ast.Assign) for t in n.targets
+        if isinstance(t, ast.Subscript) and isinstance(t.value, ast.Name) and isinstance(n.value, ast.Dict)
+        and any(isinstance(k, ast.Constant) and k.value == "hash" for k in n.value.keys)}
+    entry_stores = [n for n in cfg.nodes if n.kind == "stmt" and isinstance(n.ast, ast.Assign) and any(
+        isinstance(t, ast.Subscript) and isinstance(t.value, ast.Name) and t.value.id in file_tables for t in n.ast.targets)]
+    ctx.require(bool(loc_defs) and bool(entry_stores), "anchor missing: the per-reference entries ({'hash': ...}) of _compute_memoization_info")
+    r_missing = cfg.reach(loc_defs, blocked_edges=[(tn.id, lab) for (tn, lab) in present], ignore_labels=("exc",))
+    for st_ in entry_stores:
+        ok = st_.id not in r_missing
+        ctx.ob("C16.R3-no-hash-when-missing", st_.ast, ok,
+               "the entry of a reference is recorded only after an existence test of its location succeeded (every mode)" if ok else
+               "the entry of a reference is recorded on a path on which no existence test of its location succeeded: with fuzzy=True, no "
+               "embedding function and a file inside a producer's directory, the 'path does not exist' test lets the reference through and the "
+               "is-it-a-file test no longer stands in its way - the component gets a fuzzy hash (and the memoization database is queried) while "
+               "the producer's file is missing", construct="per-reference entry recorded only for an existing location")
     handlers = [n for n in cfg.nodes if n.kind == "handler"]
     for h in handlers:
         r = cfg.reach([h], blocked=none_rets, ignore_labels=("exc",))
